@@ -1,14 +1,76 @@
 //! hs — harnesses of Engine S.  `hs run <harness> k=v ...` explores one harness instance and prints a
 //! JSON report; `hs replay <file>` re-executes a recorded counterexample natively.
 mod common;
+#[cfg(feature = "c01")]
+mod c01;
+#[cfg(feature = "c02")]
+mod c02;
+#[cfg(feature = "c03")]
+mod c03;
+#[cfg(feature = "c05")]
+mod c05;
+#[cfg(feature = "c06")]
+mod c06;
+#[cfg(feature = "c07")]
 mod c07;
+#[cfg(feature = "c08")]
+mod c08;
+#[cfg(feature = "c09")]
+mod c09;
+#[cfg(feature = "c11")]
+mod c11;
+#[cfg(feature = "c12")]
+mod c12;
+#[cfg(feature = "c13")]
+mod c13;
+#[cfg(feature = "c14")]
+mod c14;
+#[cfg(feature = "c15")]
+mod c15;
+#[cfg(feature = "c16")]
+mod c16;
+#[cfg(feature = "c19")]
+mod c19;
+#[cfg(feature = "c20")]
+mod c20;
 
 use common::{HarnessDef, Params};
 use std::collections::BTreeMap;
 
 fn registry() -> Vec<HarnessDef> {
     let mut v = Vec::new();
+    #[cfg(feature = "c01")]
+    c01::register(&mut v);
+    #[cfg(feature = "c02")]
+    c02::register(&mut v);
+    #[cfg(feature = "c03")]
+    c03::register(&mut v);
+    #[cfg(feature = "c05")]
+    c05::register(&mut v);
+    #[cfg(feature = "c06")]
+    c06::register(&mut v);
+    #[cfg(feature = "c07")]
     c07::register(&mut v);
+    #[cfg(feature = "c08")]
+    c08::register(&mut v);
+    #[cfg(feature = "c09")]
+    c09::register(&mut v);
+    #[cfg(feature = "c11")]
+    c11::register(&mut v);
+    #[cfg(feature = "c12")]
+    c12::register(&mut v);
+    #[cfg(feature = "c13")]
+    c13::register(&mut v);
+    #[cfg(feature = "c14")]
+    c14::register(&mut v);
+    #[cfg(feature = "c15")]
+    c15::register(&mut v);
+    #[cfg(feature = "c16")]
+    c16::register(&mut v);
+    #[cfg(feature = "c19")]
+    c19::register(&mut v);
+    #[cfg(feature = "c20")]
+    c20::register(&mut v);
     v
 }
 
